@@ -16,19 +16,19 @@ class C16(Prop):
         "three fault kinds whose verdict is known by construction, injected into otherwise matching replies (v1/v2c/v3 plain, auth, DES, AES; sync "
         "and async): (pad) 1-60 arbitrary octets appended after the top-level message => never delivered, SnmpDecodeError; (length-past-parent) the "
         "length field of an inner element at any nesting level (global header, security parameters, USM sequence, scoped PDU, PDU, varbind list, "
-        "varbind, name, value) is raised to run 1..N octets past its enclosing element, before signing/encryption => never delivered; (follower) "
+        "varbind, name, value) is raised to run 1..N octets past its enclosing element, before signing/encryption => never delivered; (parent-shortened) a constructed element at any level is declared 1-2 octets shorter than its contents, so that its last child runs past it => never delivered; (inner-junk) the same reply is sent twice with different octets inserted after one inner element => identical outcome; (follower) "
         "the same varbind k is sent twice with different following varbinds / junk after its value inside the varbind => the value delivered for k "
         "is identical and equals the reference denotation, for every value type incl. all REAL forms. non-trivial = a tampered datagram was "
         "consumed; distinct = abstract trace + (fault, tampered element, value type)"
     )
-    quick_runs = 3000
-    thorough_runs = 50000
+    quick_runs = 30000
+    thorough_runs = 400000
 
     def families(self, tier):
-        return [("pad", 2), ("length-past-parent", 4), ("follower", 4)]
+        return [("pad", 2), ("length-past-parent", 4), ("follower", 4), ("parent-shortened", 3), ("inner-junk", 2)]
 
     def expected_counters(self, tier):
-        return ["fault.outer.pad", "fault.inner.len_past_parent", "probe.pad-rejected", "probe.past-parent-rejected", "probe.follower-compared", "probe.follower-real", "probe.junk-after-value", "probe.tampered.value", "probe.tampered.name", "probe.tampered.varbind", "probe.tampered.varbinds", "probe.tampered.pdu", "probe.tampered.scoped-pdu", "probe.tampered.usm", "probe.tampered.global"]
+        return ["fault.outer.pad", "fault.inner.len_past_parent", "probe.pad-rejected", "probe.past-parent-rejected", "probe.follower-compared", "probe.follower-real", "probe.junk-after-value", "probe.tampered.value", "probe.tampered.name", "probe.tampered.varbind", "probe.tampered.varbinds", "probe.tampered.pdu", "probe.tampered.scoped-pdu", "probe.tampered.usm", "probe.tampered.global", "probe.parent-shortened", "probe.inner-junk-compared"]
 
     def gen(self, rng, family, tier):
         flavour = rng.choice(["sync", "async"])
@@ -64,6 +64,19 @@ class C16(Prop):
                 vbs = [list(x) for x in before] + [[name_k, val_k, k_opts]] + after
                 scripts["%d:1" % opid] = {"replies": [{"k": "custom", "pdu": "response", "varbinds": vbs}], "k_index": len(before)}
             return {"flavour": flavour, "agent": agent, "sessions": [sess], "ops": ops, "scripts": scripts, "latency_ns": 1001, "fam": family, "k": [name_k, val_k]}
+        if family == "inner-junk":
+            # the same reply twice, with different octets inserted after one inner element
+            names = [gen.oid_text(gen.oid(rng)) for _ in range(rng.randint(1, 2))]
+            vbs = [[o, gen.value(rng, kinds)] for o in names]
+            # only after the LAST child of a parent: anywhere else the inserted octets simply are the next element
+            where = rng.choice(["pdu", "varbinds", "value", "scoped-pdu", "usm", "sec-model"])
+            names = names[:1]
+            vbs = vbs[:1]
+            for opid in (1, 2):
+                ops.append({"id": opid, "s": 0, "op": "get_many", "oids": names})
+                junk = bytes(rng.randrange(256) for _ in range(rng.randint(1, 12))).hex()
+                scripts["%d:1" % opid] = {"replies": [{"k": "custom", "pdu": "response", "varbinds": vbs, "inner": [{"op": "insert_after", "name": where, "hex": junk}]}]}
+            return {"flavour": flavour, "agent": agent, "sessions": [sess], "ops": ops, "scripts": scripts, "latency_ns": 1001, "fam": family, "where": where}
         for opid in range(1, rng.randint(2, 4)):
             names = [gen.oid_text(gen.oid(rng)) for _ in range(rng.randint(1, 3))]
             if rng.random() < 0.5:
@@ -74,6 +87,10 @@ class C16(Prop):
             item = {"k": "custom", "pdu": "response", "varbinds": [[o, gen.value(rng, kinds)] for o in names]}
             if family == "pad":
                 item["outer"] = [{"op": "pad", "hex": bytes(rng.choice([0, 0x30, 0xFF, rng.randrange(256)]) for _ in range(rng.randint(1, 60))).hex()}]
+            elif family == "parent-shortened":
+                # a constructed element declared 1-2 octets shorter than its contents: its last child now runs
+                # past the enclosing element
+                item["inner"] = [{"op": "len", "name": rng.choice(["message", "pdu", "pdu", "varbinds", "varbind", "scoped-pdu", "usm", "sec-params", "global"]), "delta": -rng.choice([1, 1, 2])}]
             else:
                 item["inner"] = [{"op": "len_past_parent", "node": rng.randrange(0, 64), "delta": rng.choice([1, 1, 2, 5, 100, 1000])}]
             scripts["%d:1" % opid] = {"replies": [item, {"k": "genuine", "delay_ns": 50_001}] if rng.random() < 0.3 else [item]}
@@ -120,6 +137,20 @@ class C16(Prop):
                     break
             run.c16 = shapes
             return out
+        if fam == "inner-junk":
+            outs = []
+            for res in run.results:
+                consumed = [run.dgrams[d]["label"] for ex in run.exchanges(res) for d in ex["rx"]]
+                if not consumed or not str(consumed[0].get("why", "")).startswith("junk-after-"):
+                    continue
+                outs.append(res.get("ok") if "ok" in res else ("exc", res["exc"]["exc"]))
+            if len(outs) == 2:
+                run.sim.count("probe.inner-junk-compared")
+                shapes.append(("inner-junk", run.plan["where"]))
+                if outs[0] != outs[1]:
+                    out.append(V("C16.outcome-depends-on-following-bytes", "identical reply, different octets after the %s element: %r vs %r" % (run.plan["where"], outs[0], outs[1]), where=run.plan["where"]))
+            run.c16 = shapes
+            return out
         for res in run.results:
             exs = run.exchanges(res)
             if len(exs) != 1:
@@ -130,8 +161,10 @@ class C16(Prop):
                 continue
             first = consumed[0]
             why = first.get("why")
-            if why not in ("padded", "length-past-parent"):
+            if why not in ("padded", "length-past-parent", "length-tampered"):
                 continue
+            if why == "length-tampered":
+                run.sim.count("probe.parent-shortened")
             shapes.append((why, first.get("tampered")))
             if first.get("tampered"):
                 t = first["tampered"]
@@ -144,6 +177,8 @@ class C16(Prop):
             delivered_tampered = "ok" in res and len(ex["rx"]) == 1
             if delivered_tampered:
                 out.append(V("C16.tampered-datagram-delivered", "%s datagram (element %s) was delivered: %r" % (why, first.get("tampered"), res["ok"]), why=why, element=first.get("tampered")))
+                continue
+            if why == "length-tampered" and first.get("encrypted") and first.get("tampered") == "scoped-pdu":
                 continue
             encrypted_inner = first.get("encrypted") and first.get("tampered") in ("scoped-pdu", "pdu", "varbinds", "varbind", "name", "value", "request-id", "error-status", "error-index", "ctx-engine-id", "ctx-name")
             if why == "padded":
